@@ -42,8 +42,17 @@ Rich == {A, S, LongString("ls"), Int("1"), Float("1.5"), RTime("2s"), Bool(TRUE)
          IfX(IfX(A, B, A), IfX(B, S, A), IfX(A, S, IfX(B, S, S))), CallX("f", <<CallX("g", <<CallX("h", <<A>>), S>>)>>),
          Group(Group(Bin("==", A, S))), Not(Not(A)), Prefix("-", Prefix("-", Int("1"))),
          \* long strings with a delimiter; a quote and a %-escape inside stay as written
-         LongStringD("x y", "XYZ"), LongStringD("a\"b %41", "J1")}
-R1 == {Bin(o, l, r) : o \in BinOps, l \in Rich, r \in Rich}
+         LongStringD("x y", "XYZ"), LongStringD("a\"b %41", "J1"),
+         \* identifiers spelled like operators / keywords / with every continuation character; more literal spellings
+         Ident("rol"), Ident("var.ror"), Ident("req.http.default"), Ident("req.http.Cookie:a-b"), Ident("obj.if"), Ident("v4_x"),
+         CallX("rol", <<Ident("ror")>>), Int("0"), Float("0.5"), RTime("100ms"), RTime("1.5h"), RTime("3d"), RTime("2y"), RTime("7m"),
+         String(""), String("a b"), LongString(""),
+         \* comment markers, braces and a line break inside strings; negative float / RTIME
+         String("http://x/#y /* z */"), LongString("a\nb } {"), LongStringD("{\"x\"}", "Q"), Prefix("-", Float("1.5")), Prefix("-", RTime("2s"))}
+\* quick: every atom on either side of every operator, beside three partners; thorough: every pair of atoms
+Partners == {A, S, Int("1")}
+R1 == IF Full THEN {Bin(o, l, r) : o \in BinOps, l \in Rich, r \in Rich}
+      ELSE {Bin(o, x, p) : o \in BinOps, x \in Rich, p \in Partners} \cup {Bin(o, p, x) : o \in BinOps, x \in Rich, p \in Partners}
 
 ExprCtx(e, ctx) ==
   IF ctx = "set" THEN SubD("s", <<>>, None, Block(<<SetS("req.http.R", "=", e)>>))
@@ -59,7 +68,7 @@ ExprSel ==
         THEN {<<t, m, c>> : t \in Rich, m \in Both, c \in {"set", "if"}} \cup {<<t, m, "set">> : t \in R1, m \in Both}
         ELSE {})
   \cup (IF "triples" \in Families THEN {<<t, m, "set">> : t \in U3, m \in Both} ELSE {})
-ExprCases == {[fam |-> "expr", x |-> x] : x \in ExprSel}
+ExprCases == {<<"expr", x>> : x \in ExprSel}
 
 \* ---- statements
 Es == {A, S, Bin("==", A, S), Bin("juxt", S, A), CallX("f", <<A>>)}
@@ -76,7 +85,8 @@ Simples ==
         ErrorS(Ident("var.code"), None), ErrorS(Ident("var.code"), S), ErrorS(CallX("f", <<A>>), None), ErrorS(CallX("f", <<>>), S)}
   \cup {Simple("esi"), Simple("restart")}
   \cup {ValueS(k, e) : k \in {"log", "synthetic", "synthetic64"}, e \in {S, Bin("juxt", S, A), Bin("+", S, A), LongString("ls")}}
-  \cup {GotoS("done"), LabelS("done:")}
+  \cup {GotoS("done"), LabelS("done:"), CallS("rol", <<>>, FALSE), CallS("ror", <<A>>, TRUE), FCallS("ror", <<>>), SetS("var.rol", "rol=", Int("1")),
+        SetS("req.http.default", "=", S), UnsetS("req.http.if"), DeclareS("var.ror", "INTEGER", None)}
   \cup {ReturnS(None, FALSE), ReturnS(Ident("lookup"), TRUE), ReturnS(Ident("lookup"), FALSE), ReturnS(Bin("==", A, S), FALSE),
         ReturnS(Bin("==", A, S), TRUE), ReturnS(Bool(TRUE), FALSE), ReturnS(Ident("restart"), TRUE), ReturnS(Ident("error"), TRUE)}
   \cup {IncludeS("mod", TRUE), IncludeS("mod", FALSE)}
@@ -115,18 +125,18 @@ Nested == {IfS(A, Block(<<inner>>), <<Elif("elsif", B, Block(<<inner>>))>>, Bloc
           \cup {SwitchS(A, <<CaseC(Eq("a"), <<inner, Ft>>), CaseC(None, <<inner, inner, Brk>>)>>) : inner \in Inners}
 Stmts == Simples \cup Ifs0 \cup Switches \cup Nested
 InSub(ss) == Vcl(<<SubD("vcl_recv", <<>>, None, Block(ss))>>)
-StmtCases == {[fam |-> "stmt", x |-> st] : st \in Stmts}
+StmtCases == {<<"stmt", st>> : st \in Stmts}
 \* source order: every ordered pair of a spread of statement kinds, in one block
 OrderPool == {SetS("req.http.X", "=", S), UnsetS("req.http.X"), CallS("f", <<>>, FALSE), ErrorS(None, None), Esi,
               ValueS("log", S), ReturnS(None, FALSE), IfS(A, Block(<<>>), <<>>, None), LabelS("l:"), FCallS("f", <<>>),
               IncludeS("m", FALSE), Block(<<>>), DeclareS("var.v", "STRING", None), ErrorS(Int("503"), None)}
-PairCases == {[fam |-> "order", x |-> <<s1, s2>>] : s1 \in OrderPool, s2 \in OrderPool}
+PairCases == {<<"order", <<s1, s2>>>> : s1 \in OrderPool, s2 \in OrderPool}
 
 \* long blocks over a small pool: what the parser carries from one statement to the next (the two-token window,
 \* prevToken, comments waiting for a node) only shows several statements later
 SeqPool == {SetS("req.http.X", "=", Bin("juxt", S, A)), IfS(A, Block(<<Esi>>), <<Elif("else if", B, Block(<<>>))>>, None),
             SwitchS(A, <<CaseC(Eq("a"), <<Brk>>)>>), LabelS("l:"), ReturnS(Ident("lookup"), TRUE), FCallS("f", <<A>>)}
-Seq4Cases == {[fam |-> "seq", x |-> <<s1, s2, s3, s4>>] : s1 \in SeqPool, s2 \in SeqPool, s3 \in SeqPool, s4 \in SeqPool}
+Seq4Cases == {<<"seq", <<s1, s2, s3, s4>>>> : s1 \in SeqPool, s2 \in SeqPool, s3 \in SeqPool, s4 \in SeqPool}
 
 \* ---- declarations
 P1 == Prop("host", String("h"))   P2 == Prop("connect_timeout", RTime("1s"))   P3 == Prop("port", String("80"))
@@ -154,33 +164,35 @@ Decls ==
   \cup {SubDP(n, <<>>, rt, b, TRUE) : n \in {"fn", "vcl_recv"}, rt \in {None, Ident("BOOL"), Ident("STRING")},
                                       b \in {Block(<<>>), Block(<<ReturnS(Bool(TRUE), FALSE)>>), Block(<<Esi, CallS("fn", <<>>, TRUE)>>)}}
   \cup {PenaltyboxD("pb"), RatecounterD("rc"), ImportS("foo"), IncludeS("mod", TRUE), IncludeS("mod", FALSE)}
-DeclCases == {[fam |-> "decl", x |-> d] : d \in Decls}
+DeclCases == {<<"decl", d>> : d \in Decls}
 \* source order at the top level: every ordered triple of one declaration of each kind
 DeclPool == {SubDP("fn", <<>>, Ident("STRING"), Block(<<>>), TRUE), AclD("a", <<>>), BackendD("b", <<P1>>), DirectorD("d", "random", <<>>), TableD("t", None, <<>>, FALSE),
              SubD("vcl_recv", <<>>, None, Block(<<Esi>>)), PenaltyboxD("pb"), RatecounterD("rc"), ImportS("foo"), IncludeS("mod", FALSE)}
-TripleCases == {[fam |-> "declorder", x |-> <<d1, d2, d3>>] : d1 \in DeclPool, d2 \in DeclPool, d3 \in DeclPool}
+TripleCases == {<<"declorder", <<d1, d2, d3>>>> : d1 \in DeclPool, d2 \in DeclPool, d3 \in DeclPool}
+               \cup {<<"declorder", <<>>>>}        \* the empty program (decorated: a file of comments only)
 
 Cases == (IF Families \cap {"pairs", "triples", "atoms"} # {} THEN ExprCases ELSE {})
          \cup (IF "stmts" \in Families THEN StmtCases \cup PairCases \cup Seq4Cases ELSE {})
          \cup (IF "decls" \in Families THEN DeclCases \cup TripleCases ELSE {})
 
-\* A case is kept as its selector x (small); the program and the written expression are derived from it.
-CaseE(c)   == Paren(c.x[1], c.x[2])                                   \* expression families: the written tree
-CaseVcl(c) == CASE c.fam = "expr"      -> Vcl(<<ExprCtx(CaseE(c), c.x[3])>>)
-                [] c.fam = "stmt"      -> InSub(<<c.x>>)
-                [] c.fam = "order"     -> InSub(<<c.x[1], c.x[2], c.x[1]>>)
-                [] c.fam = "seq"       -> Vcl(<<SubD("vcl_recv", <<>>, None, Block(<<c.x[1], c.x[2]>>)),
-                                               SubD("vcl_fetch", <<>>, None, Block(<<c.x[3], c.x[4], c.x[1]>>))>>)
-                [] c.fam = "decl"      -> Vcl(<<c.x>>)
-                [] c.fam = "declorder" -> Vcl(c.x)
+\* A case is the pair <<family, selector>> (small; a tuple, so that TLC orders cases by family first and never
+\* compares selectors of different shapes); the program and the written expression are derived from it.
+CaseE(c)   == Paren(c[2][1], c[2][2])                                   \* expression families: the written tree
+CaseVcl(c) == CASE c[1] = "expr"      -> Vcl(<<ExprCtx(CaseE(c), c[2][3])>>)
+                [] c[1] = "stmt"      -> InSub(<<c[2]>>)
+                [] c[1] = "order"     -> InSub(<<c[2][1], c[2][2], c[2][1]>>)
+                [] c[1] = "seq"       -> Vcl(<<SubD("vcl_recv", <<>>, None, Block(<<c[2][1], c[2][2]>>)),
+                                               SubD("vcl_fetch", <<>>, None, Block(<<c[2][3], c[2][4], c[2][1]>>))>>)
+                [] c[1] = "decl"      -> Vcl(<<c[2]>>)
+                [] c[1] = "declorder" -> Vcl(c[2])
 \* legality is a property of what is written (parentheses included): x (y) is a call, not a concatenation
-LegalCase(c) == c.fam = "expr" => Legal(CaseE(c))
+LegalCase(c) == c[1] = "expr" => Legal(CaseE(c))
 
 \* One state per case; two levels of fan-out (part = family / mode / context / top operator) so that TLC's workers
 \* share the work of rendering, parsing and printing.
-Key(c) == IF c.fam = "expr" THEN <<"expr", c.x[2], c.x[3], IF c.x[1].k = "infix" THEN c.x[1].op ELSE c.x[1].k>> ELSE <<c.fam>>
+Key(c) == IF c[1] = "expr" THEN <<"expr", c[2][2], c[2][3], IF c[2][1].k = "infix" THEN c[2][1].op ELSE c[2][1].k>> ELSE <<c[1]>>
 Parts == {Key(c) : c \in Cases}
-NoCase == [fam |-> "none"]
+NoCase == <<"none", <<>>>>
 VARIABLES stage, part, case
 vars == <<stage, part, case>>
 Init == stage = 0 /\ part = <<>> /\ case = NoCase
@@ -188,10 +200,10 @@ Next == \/ stage = 0 /\ stage' = 1 /\ part' \in Parts /\ UNCHANGED case
         \/ stage = 1 /\ stage' = 2 /\ case' \in {c \in Cases : Key(c) = part /\ LegalCase(c)} /\ UNCHANGED part
 Spec == Init /\ [][Next]_vars
 
-PrattOK    == stage = 2 /\ case.fam = "expr" => PrattAgrees(CaseE(case))
-DispatchOK == stage = 2 /\ case.fam \in {"stmt", "decl"} => DispatchAgrees(case.x, case.fam = "decl")
+PrattOK    == stage = 2 /\ case[1] = "expr" => PrattAgrees(CaseE(case))
+DispatchOK == stage = 2 /\ case[1] \in {"stmt", "decl"} => DispatchAgrees(case[2], case[1] = "decl")
 Texts(toks) == [i \in 1..Len(toks) |-> toks[i].s]
-Emit == stage = 2 => PrintT(<<"BEHAVIOUR", ToJson([fam |-> case.fam, toks |-> Texts(RenderStmt(CaseVcl(case))),
+Emit == stage = 2 => PrintT(<<"BEHAVIOUR", ToJson([fam |-> case[1], toks |-> Texts(RenderStmt(CaseVcl(case))),
                                                    tree |-> StripStmt(CaseVcl(case)),
                                                    req |-> [pratt |-> PrattOK, dispatch |-> DispatchOK]])>>)
 =============================================================================
